@@ -46,6 +46,8 @@ def build(sc, seed):
             shape = [56, 40]
         if sc["n"] == 2 and dim == 2:
             shape = [72, 32]     # two droplets must be well separated also for the large fit regions of low thresholds
+        if sc["n"] == 1 and dim == 2 and sc["rule"] == "mean" and seed % 3 == 0:
+            shape = [64, 64]     # a dilute image: the mean is close to the background level
         per = {"none": [False] * dim, "first": [True] + [False] * (dim - 1), "all": [True] * dim}[sc["per"]]
         lo = [float(rng.choice([0.0, -3.0 * dx, 16.0 * dx])) for _ in range(dim)]
         grid = CartesianGrid([(l, l + n * s) for l, n, s in zip(lo, shape, spac)], shape, periodic=per)
@@ -106,13 +108,22 @@ def run_scenario(sc, seed):
     from droplets.image_analysis import locate_droplets
 
     field, drops, periods, thr, ra = build(sc, seed)
+    ra_before = dict(ra)
+    fails = []
     try:
         with warnings.catch_warnings():
             warnings.simplefilter("ignore")
+            if sc["levels"] == "auto+fitted" and seed % 2 == 0:
+                # the way trackers and from_storage work: ONE options dict serves several images with different levels
+                vmin, vmax = MAPS[sc["map"]]
+                warm = field.copy()
+                warm.data[...] = (field.data - vmin) / (vmax - vmin) * 2.5 + 1.5
+                locate_droplets(warm, threshold="extrema", refine=True, refine_args=ra)
             em = locate_droplets(field, threshold=thr, refine=True, refine_args=ra)
     except Exception as exc:  # noqa: BLE001
         return [f"raised {type(exc).__name__}: {str(exc)[:100]}"], None
-    fails = []
+    if ra != ra_before:
+        fails.append(f"locate_droplets modified the caller's refine_args: {ra_before} -> {ra}")
     if len(em) != len(drops):
         return [f"{len(em)} droplets returned for {len(drops)} originals"], None
     worst = 0.0
